@@ -3,6 +3,7 @@ from ..core import Rule
 from ..prog import *
 from ..facts import AnalysisBroken
 from .. import bufmodel
+from .. import evbmodel
 from ..bufmodel import TOTAL, NADD, NDEL
 
 UNITS = ["buffer"]
@@ -315,6 +316,9 @@ def run(ctx, config):
             r3.bad("K9:evbuffer_run_callbacks:advance-after-callback", "%s:%d" % (f.file, f.line), f.name,
                    "the traversal must save LIST_NEXT(cbent) before invoking the callback and advance from the saved value (a callback may remove itself)")
     rules.append(r3)
+    rc = evbmodel.rule_model(P, "C13-counts")
+    rc.desc = "pending callback counts (n_add_for_cb / n_del_for_cb) after each evbuffer operation equal the bytes it added and removed, on every layout of the family"
+    rules.append(rc)
     return rules
 
 
